@@ -12,7 +12,7 @@ import subprocess
 from concurrent.futures import ThreadPoolExecutor
 
 from .. import build
-from ..factory import run_gendrv_one, NCPU
+from ..factory import run_gendrv_one, watched_run, NCPU
 from ..gen_schema import gen_schema
 from ..gen_query import gen_document
 from ..model import render_document, render_sdl, render_json
@@ -233,6 +233,16 @@ def main(run):
         run.held()
 
     exe = build.bin_path("gendrv")
+
+    class Drv:
+        """one driver process under the deadlock monitor and the (inconclusive-only) wall-clock watchdog"""
+        def __init__(self, mode, text, wall_s):
+            r = watched_run([exe, mode], text.encode(), wall_s=wall_s, cwd=cwd)
+            self.stdout = r["stdout"].decode("utf-8", "replace")
+            self.stderr = r["stderr_bytes"].decode("utf-8", "replace")
+            self.returncode = r["exit"] if r["signal"] is None else -r["signal"]
+            self.deadlock = r["deadlock"] and "all %d thread(s) in a futex wait without timeout and never scheduled again" % r["deadlock_threads"]
+            self.timed_out = r["timed_out"]
     # ---- (1) sequential histories, one process each
     n_hist = run.size(24, 800)
 
@@ -244,15 +254,21 @@ def main(run):
         if hi % 2 == 0:
             seq[0] = r.choice(sorted(failing)) if failing else seq[0]
         reqs = [dict(by_id[c], events=True) for c in seq]
-        p = subprocess.run([exe, "serve"], input="".join(json.dumps(q) + "\n" for q in reqs), capture_output=True, text=True, timeout=600, cwd=cwd)
+        p = Drv("serve", "".join(json.dumps(q) + "\n" for q in reqs), 600)
         outs = [json.loads(l) for l in p.stdout.splitlines()]
-        return hi, seq, outs, p.returncode
+        return hi, seq, outs, p
     with ThreadPoolExecutor(NCPU) as ex:
         hist = list(ex.map(run_history, range(n_hist)))
-    for hi, seq, outs, rc in hist:
+    for hi, seq, outs, p in hist:
         case = {"id": "history%d" % hi, "corpus": "clean", "kind": "history", "sequence": seq, "calls": {c: by_id[c] for c in sorted(set(seq))}}
         if len(outs) != len(seq):
-            run.violation(case, "driver died after %d of %d calls (exit %s)" % (len(outs), len(seq), rc))
+            prev = ",".join(seq[max(0, len(outs) - 4):len(outs)])
+            if p.deadlock:
+                run.violation(case, "deadlock in call %s (position %d of a %d-call history; previous calls: %s): %s" % (seq[len(outs)], len(outs), len(seq), prev, p.deadlock))
+            elif p.timed_out:
+                run.inconclusive_case(case["id"], "wall-clock watchdog fired after %d of %d calls" % (len(outs), len(seq)))
+            else:
+                run.violation(case, "driver died after %d of %d calls (exit %s)" % (len(outs), len(seq), p.returncode))
             continue
         seen_failure = False
         events = []
@@ -290,11 +306,13 @@ def main(run):
         ref[c["id"]] = ("ok", resp["tokens"]) if (r["exit"] == 0 and resp) else ("weird", "exit=%s" % r["exit"])
         by_id[c["id"]] = c
     seq = [c["id"] for c in many] + [c["id"] for c in many[: nmany // 2]] + [rng.choice(many)["id"] for _ in range(nmany // 2)]
-    p = subprocess.run([exe, "serve"], input="".join(json.dumps(dict(by_id[c], events=True)) + "\n" for c in seq), capture_output=True, text=True, timeout=900, cwd=cwd)
+    p = Drv("serve", "".join(json.dumps(dict(by_id[c], events=True)) + "\n" for c in seq), 900)
     outs = [json.loads(l) for l in p.stdout.splitlines()]
     case = {"id": "many-files", "corpus": "clean", "kind": "history", "sequence": seq[:50] + ["..."], "distinct_files": 2 * nmany}
-    if len(outs) != len(seq):
-        run.violation(case, "driver died after %d of %d calls in the many-files history" % (len(outs), len(seq)))
+    if len(outs) != len(seq) and p.timed_out:
+        run.inconclusive_case(case["id"], "wall-clock watchdog fired in the many-files history")
+    elif len(outs) != len(seq):
+        run.violation(case, "driver %s after %d of %d calls in the many-files history" % ("deadlocked (%s)" % p.deadlock if p.deadlock else "died", len(outs), len(seq)))
     else:
         events = []
         for i, (cid, o) in enumerate(zip(seq, outs)):
@@ -317,19 +335,22 @@ def main(run):
             threads.append([r.choice(hot if r.random() < 0.7 else calls) for _ in range(k)])
             sleeps.append([r.choice([0, 0, 0, 50, 150, 300]) for _ in range(k)])
         job = {"threads": threads, "sleeps_us": sleeps}
-        p = subprocess.run([exe, "stampede"], input=json.dumps(job), capture_output=True, text=True, timeout=600, cwd=cwd)
+        p = Drv("stampede", json.dumps(job), 600)
         try:
             out = json.loads(p.stdout)
         except ValueError:
             out = None
-        return si, threads, out, p.returncode, p.stderr[-300:]
+        return si, threads, out, p, p.stderr[-300:]
     with ThreadPoolExecutor(4) as ex:   # few at a time: the stampedes themselves use up to 16 threads
         sts = list(ex.map(run_stampede, range(n_st)))
-    for si, threads, out, rc, err in sts:
+    for si, threads, out, p, err in sts:
         ids = [[c["id"] for c in t] for t in threads]
         case = {"id": "stampede%d" % si, "corpus": "clean", "kind": "stampede", "threads": ids, "calls": {c["id"]: by_id[c["id"]] for t in threads for c in t}}
+        if out is None and p.timed_out:
+            run.inconclusive_case(case["id"], "wall-clock watchdog fired in a stampede")
+            continue
         if out is None:
-            run.violation(case, "stampede driver died (exit %s): %s" % (rc, err))
+            run.violation(case, ("stampede deadlocked: %s" % p.deadlock) if p.deadlock else "stampede driver died (exit %s): %s" % (p.returncode, err))
             continue
         ok = True
         for ti, (t, res) in enumerate(zip(threads, out["results"])):
